@@ -15,8 +15,8 @@ import os, json, re
 from . import lib
 from . import c11_util as U
 
-COQ_FILES = ['Printer/PrinterConsts.v', 'Printer/FlushModel.v', 'Printer/PrintOps.v', 'Printer/FlushProofs.v',
-             'Printer/OpsProofs.v', 'Printer/PrinterTheorems.v', 'Properties/Properties_C11.v', 'Extract/Extract_printer.v']
+COQ_FILES = ['Printer/PrinterConsts.v', 'Printer/FlushModel.v', 'Printer/PrintOps.v', 'Extract/Extract_printer.v', 'Printer/FlushProofs.v',
+             'Printer/OpsProofs.v', 'Printer/PrinterTheorems.v', 'Properties/Properties_C11.v']
 ASAN_ENV = {'ASAN_OPTIONS': 'detect_leaks=0:halt_on_error=0:suppress_equal_pcs=0:allocator_may_return_null=1:symbolize=0'}
 KEY_FS0, KEY_END, KEY_SEP, KEY_B64 = 'print-ex-flush-size-0', 'closing-run-overrun', 'vector-separator-overrun', 'base64-no-progress'
 
@@ -33,9 +33,26 @@ def gen_printer_consts(ctx):
 def check_theorems(ctx):
     conf = os.path.join(lib.COQ, 'Makefile.conf')
     known = os.path.exists(conf) and 'Printer/FlushModel.v' in open(conf).read()
-    if known: return ctx.check_theorems()
+    if known: return ctx.check_theorems(extra_targets=['Extract/Extract_printer.vo'])
     ctx.notes.append('coq/Makefile does not list the Printer files yet (bin/setup not re-run): compiled with coqc directly')
     return U.compile_theorems_directly(ctx, COQ_FILES, 'Properties_C11')
+
+
+def ensure_driver(ctx):
+    """the extracted model embeds the T1 constants: re-extract and rebuild the driver when they (or the model) changed"""
+    mt = lambda p: os.path.getmtime(p) if os.path.exists(p) else 0.0
+    ml = os.path.join(lib.ROOT, 'ocaml', 'printer', 'model.ml')
+    exe = os.path.join(lib.ROOT, 'build', 'modelrun_printer')
+    srcs = [os.path.join(lib.COQ, 'Printer', f) for f in ('PrinterConsts.v', 'FlushModel.v', 'PrintOps.v')]
+    if mt(ml) < max(mt(x) for x in srcs):
+        ctx.log('re-extracting the printer model (constants or model changed)')
+        for f in ['Printer/PrinterConsts.v', 'Printer/FlushModel.v', 'Printer/PrintOps.v', 'Extract/Extract_printer.v']:
+            rc, out = lib.sh(['coqc', '-Q', lib.COQ, 'Flatcc', os.path.join(lib.COQ, f)], timeout=900, cwd=lib.COQ)
+            if rc != 0: raise lib.CheckError('re-extraction failed at %s: %s' % (f, out[-1500:]))
+    if mt(exe) < max(mt(ml), mt(os.path.join(lib.ROOT, 'ocaml', 'printer', 'driver.ml'))):
+        rc, out = lib.sh([os.path.join(lib.ROOT, 'bin', 'build_modelrun'), 'printer'], timeout=900)
+        if rc != 0: raise lib.CheckError('build_modelrun printer failed: ' + out[-1500:])
+    ctx.modelrun('printer')
 
 
 def build_harness(ctx):
@@ -76,7 +93,7 @@ def run(ctx):
     if not thm_ok:
         ctx.broken_obligation('Properties_C11.vo', getattr(ctx, 'broken', {}))
     H = build_harness(ctx)
-    ctx.modelrun('printer')
+    ensure_driver(ctx)
 
     if ctx.replay_in:
         return replay(ctx, H, RSV)
@@ -126,7 +143,7 @@ def run(ctx):
 
     # ------------------------------------------------------------ 3. model text for every (value, flag set): length decides the sweep ranges
     default_flagsets = [(0, 0), (0, 2), (1, 1), (2, 0), (8, 0), (11, 3), (4, 8), (3, 255)] if not ctx.thorough else \
-        [(f, i) for f in range(16) for i in (0, 1, 2)] + [(0, i) for i in (3, 4, 7, 8, 16, 63, 64, 65, 127, 128, 200, 254, 255)] + [(3, 255), (11, 255)]
+        [(f, i) for f in range(16) for i in (0, 2)] + [(0, i) for i in (1, 3, 4, 7, 8, 16, 63, 64, 65, 127, 128, 200, 254, 255)] + [(3, 255), (11, 1)]
     jobs = []        # (case, flags, indent, tokens)
     for c in cases:
         fsets = c.flagsets if c.flagsets is not None else (default_flagsets if ctx.thorough else rng.sample(default_flagsets, 3) + [(0, 0)])
@@ -162,15 +179,14 @@ def run(ctx):
         for p in per_case[id(c)]:
             fl, ind, L = p['fl'], p['ind'], p['L']
             skip_buffers = (c.feat['b64'] > 0 and not variant['b64'])    # fixed/growing buffers hang on base64 (reported by the probe)
-            cl.append('ref %d %d' % (fl, ind)); metas.append(('ref', p, None))
-            if skip_buffers and L + RSV >= consts['PRINT_DYN_BUFFER_SIZE']:
-                pass
+            cl.append('%s %d %d' % ('reffile' if skip_buffers else 'ref', fl, ind)); metas.append(('ref', p, None))
             if c.sweep and not skip_buffers:
                 hi = L + RSV + 24
                 full = L <= (4000 if ctx.thorough else 1400)
                 wins = [(lo, hi)] if full else [(lo, lo + 200), (max(lo, L + RSV - 260), hi)] + \
                     [(a, a + 40) for a in sorted(rng.randint(lo + 200, max(lo + 201, L + RSV - 300)) for _ in range(3))]
                 if c.sweep == 'edges': wins = [(lo, lo + 60), (max(lo, L + RSV - 40), hi)]
+                if L > 60000: wins = [(lo, lo + 6), (max(lo, L + RSV - 6), L + RSV + 3)]       # very long texts (deep nesting x large indentation)
                 # the model needs L / flush_size loop iterations per long primitive: below lo_m only three sizes are modelled
                 lo_m = RSV + 1 + L // 1500
                 for a, b in wins:
@@ -183,6 +199,7 @@ def run(ctx):
             if c.dyn and not skip_buffers:
                 sizes = sorted(set([0, 1, RSV - 1, RSV, RSV + 1, RSV + 2, RSV + 3, 100, 128, 4096, max(1, L), L + RSV - 1, L + RSV, L + RSV + 1] +
                                    [rng.randint(1, L + 2 * RSV) for _ in range(6 if ctx.thorough else 2)]))
+                if L > 60000: sizes = [0, RSV, RSV + 1, L + RSV]
                 for sz in sizes:
                     cl.append('dyn %d %d %d' % (fl, ind, sz)); metas.append(('dyn', p, sz))
                     mlines.append((p, 'dyn', sz, 'run %s d %d %d %d %d %s' % (var, sz, ind, fl & 1, (fl >> 1) & 1, p['tok']), p['nops']))
@@ -203,6 +220,7 @@ def run(ctx):
             out.append(res[k:k + len(cl)]); k += len(cl)
         return out, err
     cres = U.run_parallel(run_units, chunks)
+    ctx.log('implementation runs done')
     impl = {}          # (id(plan), kind, meta) -> reply
     refs = {}
     asan_first = ''
@@ -218,9 +236,12 @@ def run(ctx):
                         c.verify = int(r.split()[2])
                     continue
                 impl[(id(p), kind, meta)] = (r, line)
+    with open(os.path.join(ctx.bdir, 'model_requests.txt'), 'w') as f:
+        for m in mlines: f.write('%d %s %s\n' % (m[4], m[0]['case'].klass, m[3]))
     # model: heavy lines first
     order = sorted(range(len(mlines)), key=lambda i: -mlines[i][4])
     mres_o = U.model_parallel(ctx, [mlines[i][3] for i in order])
+    ctx.log('model runs done (estimated cost %d)' % sum(m[4] for m in mlines))
     mres = [None] * len(mlines)
     for i, r in zip(order, mres_o): mres[i] = r
 
@@ -269,7 +290,7 @@ def run(ctx):
             return True
         refr = impl.get((id(p), 'ref', None))
         rf = refr[0].split() if refr else None
-        if rf is None or rf[0] != 'R': return False
+        if rf is None or rf[0] != 'R' or int(rf[3]) or int(rf[4]): return False      # no usable reference
         ref_ret = int(rf[1])
         if mode == 'fixed':
             want_ok = ref_ret >= 0 and L < size - RSV
